@@ -30,7 +30,8 @@ def selftest(args):
         try:
             hit = None
             for prop in props:
-                r = subprocess.run([os.path.join(VERIF, "vx"), "check", prop], capture_output=True, text=True)
+                env = dict(os.environ, VX_EVIDENCE_DIR=os.path.join(VERIF, ".work", "evidence-scratch"))
+                r = subprocess.run([os.path.join(VERIF, "vx"), "check", prop], capture_output=True, text=True, env=env)
                 if r.returncode == 1 and ("VIOLATION property=%s" % prop) in r.stdout:
                     hit = [l for l in r.stdout.splitlines() if l.startswith("VIOLATION")][0]
                     break
